@@ -34,6 +34,7 @@ type cfg struct {
 	Mif bool   `json:"mif"`
 	M   int32  `json:"M"`
 	How string `json:"how,omitempty"` // for mif=false: "tb" (token bucket), "del" (schema deleted), "exempt"
+	V   int    `json:"v,omitempty"`   // the rest of the schema: 0 no strategy, 1 strategy local, 2 strategy globalCount + global block
 }
 
 type sentry struct {
@@ -102,6 +103,13 @@ func schema(name string, c cfg) []proxyv1alpha1.FlowControlSchema {
 	switch {
 	case c.Mif:
 		s.MaxRequestsInflight = &proxyv1alpha1.MaxRequestsInflightFlowControlSchema{Max: c.M}
+		switch c.V {
+		case 1:
+			s.Strategy = proxyv1alpha1.LocalLimit
+		case 2:
+			s.Strategy = proxyv1alpha1.GlobalCountLimit
+			s.GlobalMaxRequestsInflight = &proxyv1alpha1.MaxRequestsInflightFlowControlSchema{Max: 100}
+		}
 	case c.How == "del":
 		return nil
 	case c.How == "exempt":
@@ -229,8 +237,9 @@ func runFree(id int, rng *rand.Rand) []trace {
 		n := r.Intn(4)
 		hows := []string{"tb", "del", "exempt"}
 		for i := 0; i < n; i++ {
-			c := cfg{Mif: r.Intn(4) != 0, M: int32(r.Intn(3))}
+			c := cfg{Mif: r.Intn(4) != 0, M: int32(r.Intn(3)), V: r.Intn(3)}
 			if !c.Mif {
+				c.V = 0
 				c.M = 0
 				c.How = hows[r.Intn(3)]
 			}
